@@ -117,7 +117,7 @@ impl Ctx {
         // a call into the subject that never returns: VIOLATION after the stall limit (drivers publish
         // the case in flight with mc::watch::progress); overall wall limit: machinery error
         if replay_file.is_none() {
-            let (stall, wall) = if tier == Tier::Quick { (20, 1500) } else { (60, 4 * 3600) };
+            let (stall, wall) = if tier == Tier::Quick { (40, 1500) } else { (90, 4 * 3600) };
             crate::watch::start(&id, "call-never-returns", stall, wall);
         } else {
             crate::watch::start(&id, "call-never-returns", 30, 900);
